@@ -155,6 +155,7 @@ func arrange[T any](list []T, perm []int, dup []int) []T {
 }
 
 type c16Result struct {
+	raw   []string // the slice returned by the library (kept to see whether later calls change it)
 	set   []string // canonical: sorted, unique
 	dup   string   // a duplicated element of the raw result, if any
 	err   string
@@ -195,9 +196,30 @@ func c16Run(c *CaseC16, perm, perm2, dup []int) c16Result {
 			r.input = what + " was modified by the call"
 		}
 	}
+	var rawRes []string
 	strs := func(raw []string, err error) {
 		r.set, r.dup = canon(raw)
 		r.err = errStr(err)
+		rawRes = raw
+		r.raw = raw
+	}
+	// the result belongs to the caller and must not share storage with the arguments: after the call the argument
+	// slice is overwritten and the result compared with a copy taken before
+	scribble := func(in []string) {
+		snap := append([]string(nil), rawRes...)
+		for i := range in {
+			in[i] = "overwritten-by-the-caller"
+		}
+		if len(snap) != len(rawRes) {
+			r.input = "the result changed length when the caller overwrote its argument slice"
+			return
+		}
+		for i := range snap {
+			if snap[i] != rawRes[i] {
+				r.input = "the result shares storage with the argument slice (changed when the caller overwrote its argument)"
+				return
+			}
+		}
 	}
 	switch c.Op {
 	case "zoom":
@@ -215,6 +237,7 @@ func c16Run(c *CaseC16, perm, perm2, dup []int) c16Result {
 			strs(integrate.ChangeExtendedSpatialIdsZoom(in, c.C03.H, c.C03.V))
 		}
 		check(cp, in, "input ID slice")
+		scribble(in)
 	case "merge":
 		bs := arrange(c.C04.Boxes, perm, dup)
 		var in []string
@@ -230,6 +253,7 @@ func c16Run(c *CaseC16, perm, perm2, dup []int) c16Result {
 			strs(integrate.MergeExtendedSpatialIds(in, c.C04.H, c.C04.V))
 		}
 		check(cp, in, "input ID slice")
+		scribble(in)
 	case "overlap":
 		a, b := arrange(c.C05.A, perm, dup), arrange(c.C05.B, perm2, nil)
 		var ia, ib []string
@@ -270,6 +294,7 @@ func c16Run(c *CaseC16, perm, perm2, dup []int) c16Result {
 		cp := append([]string(nil), in...)
 		strs(operated.GetNspatialIdsAroundVoxcels(in, c.C08.HL, c.C08.VL))
 		check(cp, in, "input ID slice")
+		scribble(in)
 		// the single-voxel queries: multiset determinism
 		id := c.C08.Boxes[0].Ext()
 		extra := append(append(operated.Get6spatialIdsAdjacentToFaces(id), operated.Get8spatialIdsAroundHorizontal(id)...), operated.Get26spatialIdsAroundVoxel(id)...)
@@ -567,6 +592,19 @@ func firstDiff(a, b []string) string {
 func checkC16(c *CaseC16, fl *Fails) {
 	desc := jsonStr(c)
 	base := c16Run(c, nil, nil, nil)
+	baseSnap := append([]string(nil), base.raw...)
+	defer func() {
+		// the slice returned by the first call was kept: none of the later calls may have changed it
+		if len(baseSnap) != len(base.raw) {
+			return
+		}
+		for i := range baseSnap {
+			if baseSnap[i] != base.raw[i] {
+				fl.Add("result-retention", "%s: element %d of the slice returned by the first call changed from %q to %q during later calls", desc, i, baseSnap[i], base.raw[i])
+				return
+			}
+		}
+	}()
 	if base.input != "" {
 		fl.Add("input-modified", "%s: %s", desc, base.input)
 	}
@@ -612,7 +650,7 @@ func checkC16(c *CaseC16, fl *Fails) {
 func init() {
 	register(PropT[CaseC16]{
 		ID:   "C16",
-		Rule: "rapid: an operation (zoom change, merge, overlap, line, corridor, N-layer + 6/8/26 neighbourhoods, quadkey / altitude-key / bit-form conversion, quadkey back-conversion, tile conversion; both notations where they exist) with an argument list drawn from that operation's own generator (C03, C04, C05, C06, C14, C08, C11, C13), plus a permutation of every list argument (rapid.Permutation) and 0..3 entries repeated. Oracle: 4 identical calls return equal sets, with calls of the same operation on related arguments (same index numbers at a neighbouring zoom, neighbouring indices) in between: a result must not depend on the call history; the permuted and the duplicated input return the same set (overlap: the same boolean); de-duplicated results contain no element twice; a deep copy of every input slice / object taken before the call equals it afterwards. Line and corridor take points: repeat-determinism, input preservation and independence from the identity / history of the *Point objects (objects moved in place with their setters between two queries must give the result of fresh objects). Non-trivial: list length>=3 with a repeated entry and a non-identity permutation; every line/corridor case.",
+		Rule: "rapid: an operation (zoom change, merge, overlap, line, corridor, N-layer + 6/8/26 neighbourhoods, quadkey / altitude-key / bit-form conversion, quadkey back-conversion, tile conversion; both notations where they exist) with an argument list drawn from that operation's own generator (C03, C04, C05, C06, C14, C08, C11, C13), plus a permutation of every list argument (rapid.Permutation) and 0..3 entries repeated. Oracle: 4 identical calls return equal sets, with calls of the same operation on related arguments (same index numbers at a neighbouring zoom, neighbouring indices) in between: a result must not depend on the call history; the permuted and the duplicated input return the same set (overlap: the same boolean); de-duplicated results contain no element twice; a deep copy of every input slice / object taken before the call equals it afterwards; the returned slice shares no storage with the arguments (the caller overwrites them afterwards) and is not changed by later calls (result retention). Line and corridor take points: repeat-determinism, input preservation and independence from the identity / history of the *Point objects (objects moved in place with their setters between two queries must give the result of fresh objects). Non-trivial: list length>=3 with a repeated entry and a non-identity permutation; every line/corridor case.",
 		Assumptions: []string{
 			"map iteration order is re-randomised by the Go runtime per range statement, so repeated calls inside one process sample different orders; an order dependence with probability p per call is seen by 4 calls with probability 1-p^4-(1-p)^4 per case",
 			"ConvertTileXYZsToSpatialIDs is documented as a plain expansion (not de-duplicated): compared as a set only",
